@@ -270,6 +270,11 @@ PROPS["C14"] = {
              "c14_legacy: for a generated (offer, NAT header, proxy present/answering/silent) the legacy request and its versioned "
              "equivalent are issued in equal broker states and must correspond (answer<->200+body, no proxies<->503, timed "
              "out<->504, other error<->4xx/5xx), and the proxy must see the identical offer and NAT. "
+             "c14_concurrent: 1-6 rounds of 1-32 proxy(poll, answer)/client pairs running at once on the real clock through the real "
+             "handlers, with 0-4 /debug pollers, 0-2 /metrics + /prometheus pollers, 0-2 junk senders and 0-3 unmatched polls per round "
+             "running concurrently; oracle: every request gets a response with a valid status, no handler panics, the process survives "
+             "(fatal runtime errors are attributed through the case journal), all requests complete (60 s / 40 s stall budgets for "
+             "millisecond work), /robots.txt answers afterwards. Non-trivial = >= 2 pairs and at least one concurrent reader or junk sender. "
              "c14_wire (thorough only): the real broker binary on a loopback port, raw HTTP/1.1 over TCP: sequences of 1-8 requests on one "
              "connection (keep-alive or pipelined), Expect: 100-continue, chunked bodies, bodies of 99 999 / 100 000 / 100 001 / 300 000 bytes, "
              "legacy offers with any NAT header, mutated polls; every request must get a response that http.ReadResponse parses completely, "
@@ -278,6 +283,7 @@ PROPS["C14"] = {
     "units": [
         U("c14_http", "inpkg", "broker", "^TestVerifC14HTTP$", (800, 6000), timeout=(300, 3000), wedge_is_violation=True),
         U("c14_legacy", "inpkg", "broker", "^TestVerifC14Legacy$", (800, 6000), timeout=(300, 3000), wedge_is_violation=True),
+        U("c14_concurrent", "inpkg", "broker", "^TestVerifC14Concurrent$", (40, 400), shards=(2, 4), timeout=(400, 3000)),
         U("c14_wire", "ext", "c14wire", "^TestVerifC14Wire$", (0, 400), shards=(0, 6), timeout=(400, 1200), tiers=["thorough"]),
     ],
 }
@@ -511,6 +517,7 @@ PROPS["C20"] = {
         R("c20_broker_wiring", "inpkg", "broker", "^TestVerifC02Wiring$", (60, 600)),
         R("c20_broker_counters", "inpkg", "broker", "^TestVerifC19Counters$", (40, 400)),
         R("c20_broker_load", "inpkg", "broker", "^TestVerifC20BrokerLoad$", (1, 1), shards=(2, 4)),
+        R("c20_broker_concurrent", "inpkg", "broker", "^TestVerifC14Concurrent$", (12, 120), shards=(2, 4)),
         R("c20_safelog", "ext", "c07", "^TestVerifC07Concurrent$", (100, 1000)),
         R("c20_adapters", "ext", "c17", "^TestVerifC17(Redial|Queue)$", (100, 1000)),
         R("c20_server", "ext", "c05", "^TestVerifC05Sessions$", (12, 150), shards=(3, 6)),
